@@ -94,7 +94,7 @@ impl Prop for C20 {
         let o = ConnOpts { v6, framing: *r.pick(&[Framing::Ethernet, Framing::Ethernet, Framing::RawIp, Framing::Null1e]), max_parts: 3, gap_lo: 50_000, gap_hi: 30_000_000, tls_single_segment: true };
         let mut conns = vec![];
         for (c, s) in &eps {
-            let ck = *r.pick(&[ConnKind::TcpOnly, ConnKind::Tls, ConnKind::Http1, ConnKind::Http1, ConnKind::Http2, ConnKind::Http2Hostile, ConnKind::Garbage]);
+            let ck = *r.pick(&[ConnKind::TcpOnly, ConnKind::Tls, ConnKind::Http1, ConnKind::Http1, ConnKind::Http2, ConnKind::Http2Hostile, ConnKind::Garbage, ConnKind::TlsThenHttpResponse, ConnKind::TlsThenHttpResponse]);
             conns.push(conn::build(r, ck, *c, *s, &o));
         }
         let lens: Vec<usize> = conns.iter().map(|c| c.steps.len()).collect();
